@@ -48,10 +48,12 @@ FREE_RELEASED = ['new_reim_fft_precomp', 'new_reim_ifft_precomp', 'new_cplx_fft_
 
 def alloc_pairing(lib, R, tier):
     n = 0
-    Ns = [2, 16, 64] if tier == 'quick' else [2, 4, 8, 16, 32, 64, 256, 1024]
+    Ns = [1, 2, 4, 16, 64] if tier == 'quick' else [1, 2, 4, 8, 16, 32, 64, 256, 1024, 4096]
     for cpu in ('accel', 'generic'):
         for N in Ns:
             for ctor, mkargs, dtor, what in PAIRS:
+                if N < 2 and what == 'FFT64 module':
+                    continue  # FFT64 needs N >= 2 (m = N/2 >= 1)
                 n += 1
                 subj = '%s/%s [N=%d,%s]' % (ctor, dtor, N, cpu)
                 try:
@@ -98,6 +100,8 @@ def alloc_pairing(lib, R, tier):
                 except (Unsupported, NeedEnum, Runaway, Aborted) as e:
                     R.ob('new-delete-pairing', subj, 'unknown', detail=str(e))
             # objects sized by the module
+            if N < 2:
+                continue
             try:
                 c = Ctx(lib, cpu=cpu, trusted=TRUSTED)
                 mod = c.module(N, FFT64)
